@@ -676,7 +676,9 @@ func (c *codecCheck) lenOperandArray(s ast.Stmt, n int) bool {
 func (c *codecCheck) checkExact(fd *ast.FuncDecl) {
 	T := c.cf.name
 	want := "{ if n, err := decode" + T + "(buf, obj); err != nil { return err } else if n != uint64(len(buf)) { return encoder.ErrRemainingBytes } return nil }"
-	if c.es(fd.Body) != want {
+	// the same test written with plain early returns
+	alt := "{ n, err := decode" + T + "(buf, obj) if err != nil { return err } if n != uint64(len(buf)) { return encoder.ErrRemainingBytes } return nil }"
+	if got := c.es(fd.Body); got != want && got != alt {
 		c.failf(fd.Pos(), "exact decoder does not have the consumed==len(buf) shape: %q", c.es(fd.Body))
 	}
 }
